@@ -379,13 +379,35 @@ theorem regL_afState (p : Pool) : regL (afState p) = setFinAll (regL p) := by
   unfold regL afState
   cases h : p.reg <;> simp [setFinAll]
 
-theorem afOut_eq (p : Pool) : afOut p = sortDesc ((regL p).filter (fun e => e.fin = false)) := by
-  unfold afOut regL
-  cases h : p.reg <;> simp [sortDesc]
+theorem afOut_eq (p : Pool) : afOut p = sortDesc (p.pf ++ (regL p).filter (fun e => e.fin = false)) := rfl
+
+theorem filter_ords_nodup {l : List Entry} (h : l.Pairwise (fun a b => a.order < b.order)) (q : Entry → Bool) :
+    (ords (l.filter q)).Nodup :=
+  asc_nodup (h.sublist List.filter_sublist)
+
+/-- the markOrders `ExtractAllMarkedFinalize` hands out are pairwise distinct -/
+theorem afOut_nodup {p : Pool} (hi : Inv p) : (ords (afOut p)).Nodup := by
+  rw [afOut_eq]
+  refine nodup_ords_sortDesc.mpr ?_
+  unfold ords; rw [List.map_append]
+  refine nodup_append_of hi.pfNodup (filter_ords_nodup hi.regAsc _) ?_
+  intro n hn hn'
+  obtain ⟨e, he, heo⟩ := mem_ords.mp hn
+  have hm := List.mem_filter.mp he
+  exact (hi.regFresh e hm.1 (by simpa using hm.2)).2 (heo ▸ hn')
+
+theorem mem_afOut {p : Pool} {n : Nat} (hn : n ∈ ords (afOut p)) :
+    (∃ e ∈ regL p, e.fin = false ∧ e.order = n) ∨ n ∈ ords p.pf := by
+  rw [afOut_eq] at hn
+  obtain ⟨e, he, heo⟩ := mem_ords.mp (mem_ords_sortDesc.mp hn)
+  rcases List.mem_append.mp he with h | h
+  · exact Or.inr (mem_ords.mpr ⟨e, h, heo⟩)
+  · have := List.mem_filter.mp h
+    exact Or.inl ⟨e, this.1, by simpa using this.2, heo⟩
 
 theorem Inv.af {p : Pool} (hi : Inv p) (tr' : List TEv) (X : List Nat)
     (hfin : finOrders tr' = finOrders p.tr ++ X) (hrel : relOrders tr' = relOrders p.tr)
-    (hXn : X.Nodup) (hX : ∀ n ∈ X, ∃ e ∈ regL p, e.fin = false ∧ e.order = n) :
+    (hXn : X.Nodup) (hX : ∀ n ∈ X, (∃ e ∈ regL p, e.fin = false ∧ e.order = n) ∨ n ∈ ords p.pf) :
     Inv { afState p with tr := tr' } := by
   have hrl : regL { afState p with tr := tr' } = setFinAll (regL p) := regL_afState p
   have hmem : ∀ x ∈ setFinAll (regL p), ∃ y ∈ regL p, x.order = y.order := fun x hx => (mem_setFinAll hx).1
@@ -400,8 +422,10 @@ theorem Inv.af {p : Pool} (hi : Inv p) (tr' : List TEv) (X : List Nat)
     rw [show ({ afState p with tr := tr' } : Pool).tr = tr' from rfl, hfin] at hn
     rcases List.mem_append.mp hn with h | h
     · exact hi.finLe n h
-    · obtain ⟨e, he, _, heo⟩ := hX n h
-      rw [← heo]; exact hi.regLe e he
+    · rcases hX n h with ⟨e, he, _, heo⟩ | h'
+      · rw [← heo]; exact hi.regLe e he
+      · obtain ⟨e, he, heo⟩ := mem_ords.mp h'
+        rw [← heo]; exact hi.pfLe e he
   · intro n hn
     rw [show ({ afState p with tr := tr' } : Pool).tr = tr' from rfl, hrel] at hn
     exact hi.relLe n hn
@@ -409,8 +433,10 @@ theorem Inv.af {p : Pool} (hi : Inv p) (tr' : List TEv) (X : List Nat)
     rw [hfin]
     refine nodup_append_of hi.finNodup hXn ?_
     intro n hn
-    obtain ⟨e, he, hef, heo⟩ := hX n hn
-    rw [← heo]; exact (hi.regFresh e he hef).1
+    rcases hX n hn with ⟨e, he, hef, heo⟩ | h'
+    · rw [← heo]; exact (hi.regFresh e he hef).1
+    · obtain ⟨e, he, heo⟩ := mem_ords.mp h'
+      rw [← heo]; exact hi.pfFresh e he
   · exact List.nodup_nil
   · intro e he; cases he
   · intro e he hf
@@ -429,31 +455,21 @@ theorem Inv.af {p : Pool} (hi : Inv p) (tr' : List TEv) (X : List Nat)
     show e.order ∉ relOrders tr' ∧ e.order ∉ ords p.pr
     rw [hrel, hxy]; exact hi.regRel y hy
 
-theorem filter_ords_nodup {l : List Entry} (h : l.Pairwise (fun a b => a.order < b.order)) (q : Entry → Bool) :
-    (ords (l.filter q)).Nodup :=
-  asc_nodup (h.sublist List.filter_sublist)
-
 theorem Inv.xAF {p : Pool} (hi : Inv p) : Inv (xAF p) := by
   unfold GoluaVerif.Model.ClonePool.xAF
-  refine hi.af _ (ords (afOut p)) ?_ ?_ ?_ ?_
-  · show finOrders ((afState p).tr ++ droppedEvs p.pf ++ finEvs .af (afOut p)) = _
-    rw [finOrders_append, finOrders_append, finOrders_droppedEvs, finOrders_finEvs, List.append_nil]; rfl
-  · show relOrders ((afState p).tr ++ droppedEvs p.pf ++ finEvs .af (afOut p)) = _
-    rw [relOrders_append, relOrders_append, relOrders_droppedEvs, relOrders_finEvs, List.append_nil, List.append_nil]; rfl
-  · rw [afOut_eq]; exact nodup_ords_sortDesc.mpr (filter_ords_nodup hi.regAsc _)
-  · intro n hn
-    rw [afOut_eq] at hn
-    obtain ⟨e, he, heo⟩ := mem_ords.mp (mem_ords_sortDesc.mp hn)
-    have := List.mem_filter.mp he
-    exact ⟨e, this.1, by simpa using this.2, heo⟩
+  refine hi.af _ (ords (afOut p)) ?_ ?_ (afOut_nodup hi) (fun n hn => mem_afOut hn)
+  · show finOrders ((afState p).tr ++ finEvs .af (afOut p)) = _
+    rw [finOrders_append, finOrders_finEvs]; rfl
+  · show relOrders ((afState p).tr ++ finEvs .af (afOut p)) = _
+    rw [relOrders_append, relOrders_finEvs, List.append_nil]; rfl
 
 theorem Inv.skipAF {p : Pool} (hi : Inv p) : Inv (skipAF p) := by
   unfold GoluaVerif.Model.ClonePool.skipAF
   refine hi.af _ [] ?_ ?_ List.nodup_nil ?_
-  · show finOrders ((afState p).tr ++ skipEvs p.pf ++ skipEvs (afOut p)) = _
-    rw [finOrders_append, finOrders_append, finOrders_skipEvs, finOrders_skipEvs, List.append_nil]; rfl
-  · show relOrders ((afState p).tr ++ skipEvs p.pf ++ skipEvs (afOut p)) = _
-    rw [relOrders_append, relOrders_append, relOrders_skipEvs, relOrders_skipEvs, List.append_nil, List.append_nil]; rfl
+  · show finOrders ((afState p).tr ++ skipEvs (afOut p)) = _
+    rw [finOrders_append, finOrders_skipEvs]; rfl
+  · show relOrders ((afState p).tr ++ skipEvs (afOut p)) = _
+    rw [relOrders_append, relOrders_skipEvs, List.append_nil]; rfl
   · intro n hn; cases hn
 
 theorem arOut_eq (p : Pool) : arOut p = sortDesc (p.pr ++ (regL p).filter (fun e => e.rel = false)) := rfl
